@@ -216,3 +216,15 @@ Theorem C04_persistent_pushed_value_same_in_every_interleaving : forall st dt, s
   iget a k inpA = iget a k inpB.
 Proof. exact pushed_persistent_same_in_two_runs. Qed.
 Print Assumptions C04_persistent_pushed_value_same_in_every_interleaving.
+
+(* tie to the source: what a step receives is computed by scheduler.get_input_data, regenerated statement by statement on
+   every run (Gen/InputData.v) and equal to the data plane's get_input_data the theorems above are about - in particular the
+   cache-on path (pulled values) and the cache-off path (timed buffer and persistent memory) are the source's own *)
+From MV Require Gen.InputData Sched.DataTie.
+Theorem C04_generated_get_input_data_is_the_model : forall dt ds i step,
+  NoDup (map fst (persist (ds i))) -> (forall a m, In (a, m) (persist (ds i)) -> NoDup (map fst m)) ->
+  let d := ds i in
+  let '(inp, p', q', sd') := Gen.InputData.get_input_data (setdata d) (persist d) (buffer d) (pulled dt i) (fun src => outputs (ds src)) step in
+  Plane.get_input_data dt ds i step = (inp, dupd ds i (mkD (outputs d) q' (bcount d) p' sd')).
+Proof. exact Sched.DataTie.tie_get_input_data. Qed.
+Print Assumptions C04_generated_get_input_data_is_the_model.
